@@ -374,7 +374,7 @@ fn check_at(expr: &str, tz: Tz, utc: NaiveDateTime) -> Result<(), String> {
 /// All offset transitions of a zone between 1900 and 2046 (UTC instants): coarse scan with 6 h
 /// steps, then every hit is re-scanned at 5 min steps over +-36 h, which finds the second change
 /// of the zones that changed twice within a day.
-fn all_transitions(tz: Tz) -> Vec<NaiveDateTime> {
+pub fn all_transitions(tz: Tz) -> Vec<NaiveDateTime> {
     let a = NaiveDate::from_ymd_opt(1900, 1, 1).unwrap().and_hms_opt(0, 0, 0).unwrap();
     let b = NaiveDate::from_ymd_opt(2046, 1, 1).unwrap().and_hms_opt(0, 0, 0).unwrap();
     let mut out: Vec<NaiveDateTime> = Vec::new();
